@@ -4,6 +4,7 @@ import (
 	"fmt"
 	"go/ast"
 	"go/constant"
+	"go/printer"
 	"go/types"
 	"sort"
 	"strings"
@@ -119,8 +120,19 @@ func coqStrs(ss []string) string {
 	return "[" + strings.Join(parts, "; ") + "]"
 }
 
-// typeSwitchArm returns the type names listed in the arm of the (first, outermost)
-// type switch in fn that contains the type `probe`.
+// bodyText prints an arm's statements (used to recognise arms with identical bodies).
+func bodyText(c *Ctx, body []ast.Stmt) string {
+	var b strings.Builder
+	for _, st := range body {
+		printer.Fprint(&b, c.Fset, st)
+		b.WriteString("\n")
+	}
+	return b.String()
+}
+
+// typeSwitchArm returns the type names handled like `probe` by the (first, outermost) type switch
+// in fn: the types listed in the arm that mentions probe, plus those of every other arm whose
+// body is textually identical (one arm listing A, B is the same as two arms with the same body).
 func typeSwitchArm(c *Ctx, fn *ast.FuncDecl, probe string) ([]string, error) {
 	var result []string
 	found := false
@@ -132,10 +144,7 @@ func typeSwitchArm(c *Ctx, fn *ast.FuncDecl, probe string) ([]string, error) {
 		if !ok {
 			return true
 		}
-		for _, st := range ts.Body.List {
-			cc := st.(*ast.CaseClause)
-			var names []string
-			has := false
+		armNames := func(cc *ast.CaseClause) (names []string, has bool) {
 			for _, e := range cc.List {
 				tv, ok := c.Info.Types[e]
 				if !ok {
@@ -147,10 +156,23 @@ func typeSwitchArm(c *Ctx, fn *ast.FuncDecl, probe string) ([]string, error) {
 					has = true
 				}
 			}
-			if has {
-				result, found = names, true
-				return false
+			return
+		}
+		for _, st := range ts.Body.List {
+			cc := st.(*ast.CaseClause)
+			names, has := armNames(cc)
+			if !has {
+				continue
 			}
+			body := bodyText(c, cc.Body)
+			for _, st2 := range ts.Body.List {
+				if cc2 := st2.(*ast.CaseClause); cc2 != cc && cc2.List != nil && bodyText(c, cc2.Body) == body {
+					more, _ := armNames(cc2)
+					names = append(names, more...)
+				}
+			}
+			result, found = names, true
+			return false
 		}
 		return false // only the outermost switch
 	})
@@ -300,7 +322,7 @@ func messageFactory(c *Ctx) *ast.FuncDecl {
 // firstCallArgs finds the first call to callee (a function name or a method selector name)
 // inside the clause and returns the field names selected from `v` in its arguments
 // (v.Type, &v.Type -> "Type"), v being the variable the type switch binds.
-func firstCallArgs(cc *ast.CaseClause, callee, binder string) ([]string, error) {
+func firstCallArgs(c *Ctx, cc *ast.CaseClause, callee, binder, ty string) ([]string, error) {
 	var out []string
 	done := false
 	for _, st := range cc.Body {
@@ -330,7 +352,16 @@ func firstCallArgs(cc *ast.CaseClause, callee, binder string) ([]string, error) 
 				if !ok {
 					return true // not the shape we look for; keep searching
 				}
-				if id, ok := sel.X.(*ast.Ident); !ok || id.Name != binder {
+				// the selected value is the switch's bound variable, or any other expression of the
+				// arm's type (a local obtained by an explicit assertion, a dereference, an alias)
+				isBinder := false
+				if id, ok := sel.X.(*ast.Ident); ok && id.Name == binder {
+					isBinder = true
+				}
+				if tv, ok := c.Info.Types[sel.X]; ok && strings.TrimPrefix(typeName(tv.Type), "*") == ty {
+					isBinder = true
+				}
+				if !isBinder {
 					return true
 				}
 				out = append(out, sel.Sel.Name)
@@ -510,7 +541,7 @@ func genWire(c *Ctx) (string, error) {
 			if err != nil {
 				return "", err
 			}
-			args, err := firstCallArgs(cc, f.callee, binder)
+			args, err := firstCallArgs(c, cc, f.callee, binder, ty)
 			if err != nil {
 				return "", fmt.Errorf("%s, case %s: %v", f.name, probe, err)
 			}
